@@ -379,13 +379,30 @@ def check_locking_deque(run, model, rule_ends, rule_token, rule_bound, rule_mono
         puts = ops_on(g, selfn + '.' + tq, {'put', 'put_nowait'})
         run.floor('%s token put sites' % nm, len(puts), 1)
         full_tests, lt_tests = [], []
+        from .hsmsites import reaching_defs as _rdefs
+        rd_, valmap_ = _rdefs(g, f.params)
+
+        def effective(t):
+            """a test on a local flag whose every reaching definition is the same observation (`missing = tokens < items` before the loop and again inside it) asks that
+            observation"""
+            e = t.ast
+            neg = False
+            while isinstance(e, ast.UnaryOp) and isinstance(e.op, ast.Not):
+                e = e.operand
+                neg = not neg
+            if isinstance(e, ast.Name):
+                vals = [valmap_.get(d) for d in rd_[t].get(e.id, set())]
+                if vals and all(isinstance(v, (ast.Compare, ast.Call)) for v in vals) and len({norm(v) for v in vals}) == 1:
+                    return ast.UnaryOp(op=ast.Not(), operand=vals[0]) if neg else vals[0]
+            return t.ast
         for t in g.nodes:
             if t.kind != 'test':
                 continue
-            inner, pol = strip_not(t.ast)
+            teff = effective(t)
+            inner, pol = strip_not(teff)
             if isinstance(inner, ast.Call) and isinstance(inner.func, ast.Attribute) and inner.func.attr == 'full' and dotted(inner.func.value) == selfn + '.' + tq:
                 full_tests.append((t, 'false' if pol else 'true'))    # label of the not-full edge
-            cp = compare_parts(t.ast)
+            cp = compare_parts(teff)
             if cp and is_qsize(cp[0], selfn, tq) and is_len(cp[2], selfn, dq):
                 lt_tests.append((t, cp[1]))
             elif cp and is_len(cp[0], selfn, dq) and is_qsize(cp[2], selfn, tq):
@@ -433,6 +450,16 @@ def check_locking_deque(run, model, rule_ends, rule_token, rule_bound, rule_mono
                 start_ = [m_ for m_, l_ in g.succ[h] if l_ == 'true']
                 per_ = count(g, [n for n, c, m in puts], start=start_[0], end=h) if start_ else None
                 okp = per_ == (1, 1)
+                if per_ == (0, 1) and isinstance(strip_not(h.ast)[0], ast.Name):
+                    # flag-steered form: the pass re-reads the observation into the flag and puts a token only if it still holds; the pass without a put is the one that
+                    # has just set the flag false, i.e. the last one
+                    flag_ = strip_not(h.ast)[0].id
+                    reas = [n_ for n_ in body if n_.kind == 'stmt' and isinstance(n_.ast, ast.Assign) and any(isinstance(t_, ast.Name) and t_.id == flag_ for t_ in n_.ast.targets)]
+                    ftests = [t_ for t_ in body if t_.kind == 'test' and t_ is not h and isinstance(strip_not(t_.ast)[0], ast.Name) and strip_not(t_.ast)[0].id == flag_]
+                    putn = [n_ for n_, c_, m_ in puts if n_ in body]
+                    if len(reas) == 1 and len(ftests) == 1 and putn and all(guarded_by_edge(g, p_, ftests[0], 'true' if strip_not(ftests[0].ast)[1] else 'false') for p_ in putn) \
+                            and g.dominates(reas[0], ftests[0]) and (ftests[0], ast.Lt) in [(t_, o_) for t_, o_ in lt_tests]:
+                        okp = True
                 run.inst(rule_monotone, f, 'each iteration of the repair loop adds exactly one token', okp,
                          '' if okp else ('an iteration of the loop `while %s` adds %s tokens: with none the poster spins for ever as soon as it sees fewer tokens than items (which racing '
                                          'posters produce), with more than one it overshoots' % (norm(h.ast), per_)), node=h.ast, obligation=True)
